@@ -19,6 +19,9 @@ Model-only follow-up lines (built from the implementation's answers):
   cg_classnumber D               reference class number of the model (enumeration of reduced forms)
   cg_invcheck h invs             the bookkeeping check of `invariants_multiply`
   cg_relcheck D p:b:e,...        product of prime forms (b = certified b_plus) reduces to the principal form
+  cg_compose a1 b1 c1 a2 b2 c2   Form.compose of the model (Cohen 5.4.7 + own xgcd + reduce; Props/C18Group) on prime forms of
+                                 the REAL factor base, against an independent composition (united forms found by search)
+  cg_reduce a b c                Form.reduce with the model's fuel + isReducedPrim, against Python's reduction loop
   cg_relation ...                the sign decision of sieve_block_poly / Poly::factors replayed on (polynomial, x)
 
 The oracle is plain Python: reduced-form counts (table for the exhaustive range, an O(sqrt|D|) root-counting
@@ -2007,6 +2010,68 @@ def _inv_flag(h, invs):
     return "true" if prod == h and all(d not in (0, 1) for d in invs) else "false"
 
 
+# ---------------------------------------------------------------- form arithmetic of the model against an independent composition
+
+def dirichlet_compose_ref(f1, f2, D):
+    """independent of Cohen 5.4.7: search the united middle coefficient B (B = b1 mod 2a1, B = b2 mod 2a2,
+    B^2 = D mod 4a1a2, gcd(a1, a2, B) = 1) by stepping through the residues, then reduce (a1a2, B, .). None when no
+    such B exists (gcd(a1, a2, (b1+b2)/2) > 1: the forms are not concordant after translation)."""
+    a1, b1, _ = f1
+    a2, b2, _ = f2
+    m = 4 * a1 * a2
+    for k in range(a2 + 1):
+        B = b1 + 2 * a1 * k
+        if (B - b2) % (2 * a2) == 0 and (B * B - D) % m == 0 and math.gcd(math.gcd(a1, a2), B) == 1:
+            return form_reduce(a1 * a2, B, (B * B - D) // m)
+    return None
+
+
+def _form_followups(case, ans):
+    """cg_fb_bplus: prime forms built from the REAL factor base (p, b_plus as the code computes it) are composed and
+    reduced by the Lean model (cg_compose, cg_reduce: Form.compose / Form.reduce of Props/C18Group) and compared with
+    an independent composition: united forms by search for distinct primes and for squares, the principal form for
+    f * conj(f) (the branch gcd(a1, a2, s) > 1 of the algorithm), Python's own reduction loop for cg_reduce."""
+    D = int(case.args[0])
+    try:
+        kind, lst = ans.split(" ")
+    except ValueError:
+        return None
+    if (kind == "even") != (D % 4 == 0 and (D // 4) % 4 != 1):
+        return None
+    if D % 4 == 0 and (D // 4) % 4 == 1:
+        D = D // 4                                   # the code works with D/4 (type 2 polynomials)
+    forms = []
+    for t in lst.split(","):
+        p, r, b = map(int, t.split(":"))
+        if p > 2 and D % p and 0 <= b <= p and (b * b - D) % (4 * p) == 0 and p < 5000:
+            forms.append((p, b, (b * b - D) // (4 * p)))
+    if len(forms) < 2:
+        return None
+    h = abs(D) % max(1, len(forms) - 1)
+    f1, f2 = forms[h], forms[(h + 1) % len(forms)]
+    f3 = forms[(2 * h + 3) % len(forms)]
+    out = []
+    show = lambda f: " ".join(map(str, f))
+    pairs = [(f1, f2), (f2, f1), (f1, f1), (f3, f2) if f3 != f2 else (f1, f2)]
+    for x, y in pairs:
+        ref = dirichlet_compose_ref(x, y, D)
+        if ref is not None:
+            out.append((f"cg_compose {show(x)} {show(y)}", show(ref)))
+    conj = (f1[0], -f1[1], f1[2])
+    out.append((f"cg_compose {show(f1)} {show(conj)}", show(form_reduce(*form_principal(D)))))
+    # an unreduced member of the class of f1 * f2: (a1 a2, B, C) translated and swapped
+    a, b, c = f1[0] * f2[0], None, None
+    ref = dirichlet_compose_ref(f1, f2, D)
+    if ref is not None:
+        k = 3 + abs(D) % 11
+        ra, rb, rc = ref
+        g = (ra * k * k + rb * k + rc, -(rb + 2 * ra * k), ra)          # (f(k,1), -(b+2ak), a)
+        g = (g[0], g[1] + 2 * g[0] * (k + 1), g[0] * (k + 1) ** 2 + g[1] * (k + 1) + g[2])
+        prim = math.gcd(math.gcd(ra, rb), rc) == 1
+        out.append((f"cg_reduce {show(g)}", f"{show(ref)} {'true' if prim else 'false'}"))
+    return out
+
+
 def followup(case, ans):
     case = _norm(case)
     op = case.op
@@ -2025,6 +2090,8 @@ def followup(case, ans):
             trs.append(t)
         req = f"cg_full_model {D} {hflag} {h} {','.join(map(str, invs)) or '-'} {';'.join(trs) or '-'}"
         return req, f"{h if hflag else '-'} {_inv_flag(h, invs)} ok"
+    if op == "cg_fb_bplus":
+        return _form_followups(case, ans)
     if op == "cg_h":
         D = int(case.args[0])
         if -D >= 200000 or int(case.args[1]) != 0:
@@ -2161,21 +2228,28 @@ THEOREMS = ["Ymq.C18." + t for t in (
     "legendre_eq_legendreSym_partial legendre_no_panic legendre_two legendre_residue_form legendre_panics_of_ge_two_pow_30 "
     "legendre_large_prime_panics legendre_panics_small_moduli legendre_composite_debug_assert "
     # Props/C18Group: the driver's form arithmetic (Form.compose = Cohen 5.4.7 + xgcd + reduce) is Gauss composition
-    "xgcd_correct compose_raw_identity compose_is_composition compose_dirichlet compose_concordant").split()] + [
+    "xgcd_correct compose_raw_identity compose_is_composition compose_dirichlet compose_concordant "
+    "reduce_reduced reduce_reduced_fuel reduce_mem_reducedForms relation_genuine_conductor add_equal_larges_panics run_none_of_equal_larges store_total_iff_distinct emitted_relations_genuine").split()] + [
     "Ymq.C18C19.reported_invariants_multiply"]
 HYPOTHESES = [
     "classNumber_is_reduced_count (definition, not proved): the class number h(D) of the imaginary quadratic order of discriminant D "
     "is the number of reduced primitive positive definite forms of discriminant D (Gauss); `classNumber D` is DEFINED as that count, "
     "theorem reduced_enum proves the enumeration exact",
-    "emit_hom takes the triviality of every INPUT relation as its hypothesis (phi kills the inputs); relation_genuine (Props/C18Forms) proves it "
+    "emit_hom takes the triviality of every INPUT relation as its hypothesis (phi kills the inputs); emitted_relations_genuine (Props/C18Group) composes "
+    "emit_hom_map with the conclusion `Genuine D r` of relation_genuine: if every added relation is genuine so is every emitted one; relation_genuine (Props/C18Forms) proves it "
     "for the relations built by relationOf in the form `the prime forms of the entries compose to the principal form` (explicit Dirichlet "
     "compositions of concordant forms); the passage from that statement to `phi kills the relation` for the class map phi needs that composition "
     "is well defined on classes (Gauss), which is not formalised",
     "relation_genuine.hlarge: the large primes of the relation are odd primes (what fbase::cofactor debug-asserts for a single large prime and "
     "what try_factor64 returns; the sieve reports every factor-base prime dividing the value)",
     "relation_genuine.hprim: no prime p divides y = B + 2Ax while p^2 divides A*P(x) (the forms met are primitive, gcd condition of Gauss "
-    "composition); discharged for fundamental D by relation_genuine_fundamental; for non-fundamental D it is the purpose of the conductor-prime "
-    "rejection, that implication is not proved",
+    "composition); discharged for fundamental D by relation_genuine_fundamental; for non-fundamental D by relation_genuine_conductor "
+    "(Props/C18Group) from the conductor-prime rejection, under: D odd or D/4 = 2, 3 mod 4 (classgroup() works with D/4 when D/4 = 1 mod 4), every odd "
+    "candidate prime with p^2 | D is in the conductor list, and the NAMED hypotheses that no prime of A and no large prime has its square dividing D "
+    "(select_siqs_factors is not modelled; a conductor prime above the factor base is invisible to the code)",
+    "reduced_unique (NOT PROVED): two properly equivalent reduced forms are equal (uniqueness half of Gauss' theorem). reduce_reduced / "
+    "reduce_mem_reducedForms prove existence (the model's fuel suffices, the output is reduced and enumerated by classNumber); so equality of reduced "
+    "forms is a sufficient condition for `same class`, which is the direction the driver's re-check of a relation line uses",
     "relation_genuine.hafs / haprod: A is the product of the listed odd primes of A, each with a correct stored root (select_siqs_factors is not modelled)",
     "invariants_multiply takes `diag.prod = h` (the Smith form output, property C19) as its hypothesis; C18C19.reported_invariants_multiply "
     "discharges it with C19 snf_diag and takes instead two facts about the state returned by SmithNormalForm::reduce that C19 does not prove: "
@@ -2213,7 +2287,10 @@ UNMODELLED = [
     "that composition of forms is well defined on proper equivalence classes and makes them a group (Gauss): relation_genuine exhibits, for every "
     "relation built by relationOf, an explicit chain of Dirichlet compositions of the prime forms of its entries ending at the principal form; "
     "identifying that with `the product of the classes is trivial` in the abstract class group is classical and not formalised. The model's "
-    "Form.compose (Cohen 5.4.7, used by the driver to re-check relation lines) is not proved equal to Dirichlet composition (reduce/normalize are: reduce_pequiv); "
+    "Form.compose (Cohen 5.4.7 with the model's xgcd, used by the driver to re-check relation lines) IS proved a composition (Props/C18Group: compose_is_composition "
+    "= discriminant + bilinear Gauss identity for all positive definite inputs, compose_dirichlet / compose_concordant = Dirichlet composition up to proper "
+    "equivalence when gcd(a1, a2, (b1+b2)/2) = 1), Form.reduce with the model's fuel ends in a reduced form (reduce_reduced); not proved: for gcd > 1 on PRIMITIVE "
+    "forms that the result is the class product (needs well-definedness on classes), and uniqueness of the reduced form in a class; "
     "every relation line of the sampled runs is still re-checked by independent form arithmetic (Python) and by the model's form arithmetic (Lean driver)",
     "classgroup::smoothness_bias (f64) and the release-profile value of legendre on composite moduli (never passed by the callers); "
     "arith::Dividers beyond new/mod_uint/modu63 as used by legendre",
